@@ -5,7 +5,7 @@ import glob, json, os, re, shutil, subprocess
 res = {}
 for l in open('/verif/work/seeded_results.jsonl'):
     r = json.loads(l)
-    name = r['name'].replace('-retest', '')
+    name = re.sub(r'-retest\d*$', '', r['name'])
     res.setdefault(name, []).append(r)
 NEEDS = json.load(open('/verif/scripts/seed_needs.json')) if os.path.exists('/verif/scripts/seed_needs.json') else {}
 for d in sorted(glob.glob('/tmp/mut/C*.out/[AB]')):
